@@ -60,8 +60,21 @@ def run_scan(root: Path, cwd: Path, arg: Path, opt, keep_cache=False):
     Configuration.verbose = False
     Configuration.repository = None
     os.chdir(cwd)
-    with contextlib.redirect_stdout(io.StringIO()):
-        scan(arg, list(opt) if opt else None, False)
+    if not opt:
+        # through the command line parser (argument conversion included); with exclusions given as options the entry point
+        # is called directly, because this environment's typer / click pair cannot parse --exclude
+        from typer.testing import CliRunner
+
+        from codelimit.__main__ import cli
+
+        res = CliRunner().invoke(cli, ["scan", str(arg)])
+        if res.exception is not None and not isinstance(res.exception, SystemExit):
+            raise res.exception
+        if res.exit_code not in (0, None):
+            raise RuntimeError(f"codelimit scan {arg} exited with status {res.exit_code}: {res.output[-300:]}")
+    else:
+        with contextlib.redirect_stdout(io.StringIO()):
+            scan(arg, list(opt) if opt else None, False)
     doc = json.loads((root / ".codelimit_cache" / "codelimit.json").read_text())
     return doc["codebase"]["files"]
 
@@ -342,7 +355,7 @@ def run(tier: str) -> int:
             "model_drift": rep.drift, "known_findings_hit": sorted(rep.known),
         },
         assumptions=["exhaustive over the path universe for every configuration run; two-pattern lists are sampled in the quick tier", "supported extensions are read off Pygments (trusted), not off codelimit",
-                     "each scan starts from an empty Configuration.exclude, as a fresh CLI process does; the `scan` entry point of codelimit.__main__ is called in-process"],
+                     "each scan starts from an empty Configuration.exclude, as a fresh CLI process does; `scan` is reached in-process through the command line parser of codelimit.__main__ (typer's CliRunner); when exclusions are given as options its entry point function is called directly (this environment's typer / click pair cannot parse --exclude)"],
     )
     return rc
 
